@@ -18,11 +18,12 @@ FORMS = ['dense', 'sparse', 'operator']
 
 class C03(Prop):
     id = 'C03'
-    level = 'exploration'      # bounded tier only in this module; becomes 'other' once the deductive tier is attached
+    level = 'other'            # deductive tier: pv/ded/<id>.py (picked up by Prop.deductive); this module is the bounded tier
     technique = ('certified-bracket run-time contract on FactoredInference.estimate: an independent accelerated projected-gradient + active-set solver on the '
                  'explicit full table gives a reference loss whose exact Frank-Wolfe gap brackets the true minimum; the loss of the returned model is '
                  'recomputed from model.project answers')
-    explanation = ('Bounded tier (labelled bounded): for seeded measurement sets over domains with <= 4 attributes and <= 200 cells (overlapping, nested, cyclic and '
+    explanation = ('Deductive tier (pv/ded/C03.py): shape of the Armijo acceptance test of mirror_descent and the measurement-grouping obligations shared with C04; '
+                   'attaining the optimum is decided only by the bounded tier. Bounded tier (labelled bounded): for seeded measurement sets over domains with <= 4 attributes and <= 200 cells (overlapping, nested, cyclic and '
                    'repeated projections; dense / sparse / LinearOperator queries of kinds identity, prefix, random square, tall, wide, scaled; noise scales differing '
                    'by up to 8x; total supplied or estimated) the real estimate() is run with each of MD, RDA and IG. The harness solves '
                    'min 0.5*||(A p - b)/sigma||^2 over p >= 0, sum p = model.total on the full table, computes the Frank-Wolfe gap g_ref of its solution, and checks '
@@ -41,14 +42,11 @@ class C03(Prop):
     quick_budget_s = 90
     thorough_budget_s = 1500
 
-    def deductive(self, tier):
-        return []
-
     # ---------------------------------------------------------------- cases
     def cases(self, tier, seed):
         import numpy as np
         rng = np.random.RandomState(1000003 * (seed + 1) + 3)
-        n_inst = 10 if tier == 'quick' else 40
+        n_inst = 10 if tier == 'quick' else 24
         iters = 5000 if tier == 'quick' else 50000
         insts = []
         for i in range(n_inst):
